@@ -147,14 +147,88 @@ def delivery_scenarios(prop, tier, seed, rq, wqs, families=("rule", "rand"), fra
     return out
 
 
+
+def rich_scenarios(prop, tier, seed, n_quick=40, n_thorough=800):
+    """one writer with random QoS, up to three readers (own participants) with random compatible QoS that join late, are
+    deleted or fall silent; random write / dispose / unregister over three instances (small and fragmented samples), takes,
+    faults switched on and off, partitions, batched bursts; every rule of Trace_Rtps applies to any such history"""
+    rng = random.Random(seed * 977 + 13 + sum(ord(ch) for ch in prop) * 7919)
+    out = []
+    n = n_quick if tier == "quick" else n_thorough
+    for k in range(n):
+        wrel = rng.choice(["RELIABLE", "RELIABLE", "BEST_EFFORT"])
+        wdur = rng.choice(["VOLATILE", "TRANSIENT_LOCAL"])
+        depth = rng.choice([0, 0, 1, 2, 3])
+        wq = q(rel=wrel, dur=wdur, hist=depth, max_blocking_ms=rng.choice([50, 200]))
+        if rng.random() < 0.15:
+            wq["lifespan_ms"] = rng.choice([150, 600])
+        steps = [{"do": "participant"}, {"do": "create_writer", "part": 0, "qos": wq}]
+        nparts = 1
+        readers = []   # [index, alive]
+
+        def new_reader():
+            nonlocal nparts
+            rq = q(rel="BEST_EFFORT" if wrel == "BEST_EFFORT" else rng.choice(["RELIABLE", "RELIABLE", "BEST_EFFORT"]),
+                   dur="VOLATILE" if wdur == "VOLATILE" else rng.choice(["VOLATILE", "TRANSIENT_LOCAL"]),
+                   hist=rng.choice([0, 0, 2]))
+            steps.append({"do": "participant"})
+            steps.append({"do": "create_reader", "part": nparts, "qos": rq})
+            readers.append([len(readers), True])
+            nparts += 1
+            steps.append({"do": "sleep", "ms": rng.choice([300, 600])})
+
+        if rng.random() < 0.7:
+            new_reader()
+        frag = rng.choice([64, 128, 1344])
+        faults_on = False
+        for j in range(rng.randint(6, 16)):
+            op = rng.choice(["write", "write", "write", "write", "dispose", "unregister", "take", "sleep", "faults", "reader", "delreader", "burst", "partition"])
+            live = [r for r in readers if r[1]]
+            if op == "write":
+                steps.append({"do": "write", "w": 0, "i": rng.randint(1, 3), "len": rng.choice([8, 8, 40, 100, 200, 300])})
+            elif op in ("dispose", "unregister"):
+                steps.append({"do": op, "w": 0, "i": rng.randint(1, 3), "len": 8})
+            elif op == "take" and live:
+                steps.append({"do": "take", "r": rng.choice(live)[0]})
+            elif op == "sleep":
+                steps.append({"do": "sleep", "ms": rng.choice([1, 20, 80, 300])})
+            elif op == "faults":
+                faults_on = not faults_on
+                steps.append({"do": "faults", "loss": rng.choice([0.2, 0.4]) if faults_on else 0.0, "dup": rng.choice([0.0, 0.3]) if faults_on else 0.0,
+                              "delay": rng.choice([0.0, 0.5]) if faults_on else 0.0, "max_delay_ms": rng.choice([10, 60])})
+            elif op == "reader" and len(readers) < 3:
+                new_reader()
+            elif op == "delreader" and len(live) > 1:
+                r = rng.choice(live)
+                steps.append({"do": "delete_reader", "r": r[0]})
+                r[1] = False
+            elif op == "burst":
+                steps.append({"do": "hold", "on": True})
+                steps += [{"do": "write", "w": 0, "i": rng.randint(1, 2), "len": rng.choice([8, 100])} for _ in range(rng.randint(2, 4))]
+                steps += [{"do": "sleep", "ms": 5}, {"do": "merge_held"}, {"do": "hold", "on": False}]
+            elif op == "partition" and live and rng.random() < 0.5:
+                steps.append({"do": "partition", "from_part": 0, "to_part": 1})
+                steps.append({"do": "sleep", "ms": rng.choice([100, 400])})
+                steps.append({"do": "heal"})
+        steps += [{"do": "sleep", "ms": 200}, {"do": "heal"}, {"do": "quiesce", "ms": 3000}]
+        for r in readers:
+            if r[1]:
+                steps.append({"do": "take", "r": r[0]})
+        steps.append({"do": "final"})
+        if wrel == "RELIABLE":
+            steps.append({"do": "wait_acks", "w": 0, "ms": 2000})
+        out.append({"name": f"{prop}-rich-{k}", "family": "rich", "seed": seed * 1009 + k, "frag": frag, "steps": steps})
+    return out
+
+
 def c01(tier, seed):
     wqs = [q(hist=0), q(hist=3)]
-    return delivery_scenarios("C01", tier, seed, q(hist=0), wqs)
+    return delivery_scenarios("C01", tier, seed, q(hist=0), wqs) + rich_scenarios("C01", tier, seed)
 
 
 def c02(tier, seed):
     wqs = [q(hist=0), q(rel="BEST_EFFORT", hist=0)]
-    return delivery_scenarios("C02", tier, seed, q(rel="BEST_EFFORT", hist=0), wqs)
+    return delivery_scenarios("C02", tier, seed, q(rel="BEST_EFFORT", hist=0), wqs) + rich_scenarios("C02", tier, seed)
 
 
 def c05(tier, seed):
@@ -193,7 +267,7 @@ def c05(tier, seed):
         fm = {"do": "faults", "loss": rng.choice([0.0, 0.2, 0.4]), "dup": rng.choice([0.0, 0.3]), "delay": 0.6, "max_delay_ms": rng.choice([5, 40])}
         steps = setup(q(), [q()]) + [fm] + writes(plan, gap_ms=rng.choice([0, 0, 20])) + [{"do": "sleep", "ms": 300}] + finish(1)
         out.append({"name": f"C05-rand-{j}", "family": "fragrand", "seed": seed * 7919 + j, "frag": frag, "steps": steps})
-    return out
+    return out + rich_scenarios("C05", tier, seed, n_quick=25, n_thorough=400)
 
 
 # ---------------------------------------------------------------------------------------------
@@ -232,7 +306,7 @@ def c03(tier, seed):
             steps = [s for s in steps if s.get("do") != "final"]
         out.append({"name": f"C03-{mode}-{k}", "family": mode, "seed": seed * 31 + k, "frag": 64, "steps": steps,
                     "max_steps": 6000000})
-    return out
+    return out + rich_scenarios("C03", tier, seed, n_quick=25, n_thorough=400)
 
 
 def c04(tier, seed):
@@ -271,7 +345,7 @@ def c04(tier, seed):
             steps.append({"do": "take", "r": 0})
         steps += [{"do": "take", "r": ri}, {"do": "final"}]
         out.append({"name": f"C04-{k}", "family": "late", "seed": seed * 37 + k, "frag": 64, "steps": steps})
-    return out
+    return out + rich_scenarios("C04", tier, seed, n_quick=25, n_thorough=400)
 
 
 def c27(tier, seed):
@@ -331,7 +405,7 @@ def c27(tier, seed):
             steps += [{"do": "unregister", "w": 0, "i": 1, "len": 8}, {"do": "write", "w": 0, "i": 1, "len": 8}]
         steps += finish(1)
         out.append({"name": f"C27-instops-{k}", "family": "instops", "seed": seed * 43 + k, "frag": 64, "steps": steps})
-    return out
+    return out + rich_scenarios("C27", tier, seed, n_quick=25, n_thorough=400)
 
 
 def c29(tier, seed):
@@ -376,7 +450,7 @@ def c29(tier, seed):
             steps += [{"do": "create_reader", "part": 1, "qos": q(dur=dur)}, {"do": "wait_match", "w": 0, "n": 1}]
         steps += [{"do": "heal"}, {"do": "quiesce", "ms": 1500}, {"do": "take", "r": 0}, {"do": "final"}]
         out.append({"name": f"C29-{mode}-{k}", "family": mode, "seed": seed * 43 + k, "frag": 64, "steps": steps})
-    return out
+    return out + rich_scenarios("C29", tier, seed, n_quick=25, n_thorough=400)
 
 
 # ---------------------------------------------------------------------------------------------
